@@ -62,6 +62,7 @@ def container_list(cx, flat, label="containers", fresh=True) -> SList:
     n = cx.int("n_" + label, lo=0)
     l = SList(None, length=n, fresh=fresh, label=label)
     l.ghost["flat"] = flat
+    l.ghost["flat_make"] = lambda sq: tree_list(cx, sq, "flattened")
     l.ghost["ident"] = lid
     cx.assume(FlatUpTo(lid, 0) == EMPTY)
     cx.assume(FlatUpTo(lid, to_term_int(n)) == flat)
@@ -87,6 +88,8 @@ def flat_of(l):
         for c in l.items:
             if isinstance(c, SObj) and c.cls == "Tree" and isinstance(c.fields.get("tree"), SObj):
                 u = z3.Unit(c.fields["tree"].ident)
+            elif isinstance(c, SObj) and c.cls in ("TreeList", "Length") and isinstance(c.fields.get("trees"), SList) and "seq" in c.fields["trees"].ghost:
+                u = c.fields["trees"].ghost["seq"]
             else:
                 return None
             sq = u if sq.eq(EMPTY) else z3.Concat(sq, u)
@@ -120,10 +123,26 @@ def some_tree(cx, name="tree") -> SObj:
     return t
 
 
+ScopeVal = z3.Function("ScopeValue", I, I, I)           # (scope content, symbol) -> identity of the tree bound to the symbol
+
+
 def scope_input(cx, case):
+    """None, or a dict NonTerminal -> tree of unknown content (possibly empty)"""
     if case == "no_scope":
         return None
-    return cc.abstract_dict(cx, "scope")
+    sid = cx.const("scope_content", I)
+
+    def value(key, sid=sid):
+        t = SObj("DerivationTree", {}, fresh=False, label="scope[...]")
+        t.ident = ScopeVal(sid, cx.b.ident_term(key) if hasattr(cx, "b") else key.ident)
+        return t
+
+    d = cx.int_dict("scope", value=value)
+    d.ghost["ident"] = sid
+    d.ghost["nonempty"] = cx.bool("scope_nonempty").term
+    k = z3.Int("sk")
+    cx.assume(ForAll([k], Implies(z3.Select(d.keys, k), d.ghost["nonempty"])))     # a dict with a key is not empty
+    return d
 
 
 # ------------------------------------------------------------------------------------------------ abstract contracts
@@ -274,3 +293,273 @@ class DescendantAttributeSearch_find_direct(_TwoLevel):
     target = f"{SEARCH}:DescendantAttributeSearch.find_direct"
     cls, base_fn, fm, x = "DescendantAttributeSearch", FindDirectS, FMf, FindS
     loops = _two_level_loops(FMf, FindS)
+
+
+# ------------------------------------------------------------------------------------------------ <sym>
+
+def nonterminal(cx, name="self.symbol") -> SObj:
+    s = SObj("NonTerminal", {}, fresh=False, label=name)
+    s.ident = cx.const("symbol_id", I)
+    s.fields["@hash"] = SInt(s.ident)
+    return s
+
+
+@register
+class Tree_find_all_trees(Contract):
+    """assumed here: the list returned by DerivationTree.find_all_trees is AllTrees(tree, symbol) (recursive definition in tree.py)"""
+    target = "language/tree.py:DerivationTree.find_all_trees"
+    trusted = True
+
+    def fresh_result(self, cx, a):
+        return tree_list(cx, AllTrees(a["self"].ident, a["symbol"].ident), "all_trees")
+
+
+@register
+class Tree_find_direct_trees(Contract):
+    """assumed at call sites, verified below: the children and sources whose symbol is `symbol`, in order"""
+    target = "language/tree.py:DerivationTree.find_direct_trees"
+    trusted = True
+
+    def fresh_result(self, cx, a):
+        return tree_list(cx, DirectTrees(a["self"].ident, a["symbol"].ident), "direct_trees")
+
+
+class _Rule(Contract):
+    properties = ("C07",)
+    float_mode = "real"
+    cases = ("no_scope", "scope")
+    trees_fn = None
+
+    def inputs(self, cx, case):
+        s = search_obj(cx, "RuleSearch", "self")
+        s.fields["symbol"] = nonterminal(cx)
+        a = {"self": s, "tree": some_tree(cx), "scope": scope_input(cx, case), "population": None}
+        cx.ghost["scope_id"] = scope_id(a)
+        cx.ghost["scope0"] = a["scope"]
+        cx.ghost["keys0"] = a["scope"].keys if a["scope"] is not None else None
+        return a
+
+    def ensures(self, cx, a, r):
+        flat = flat_of(r)
+        if flat is None:
+            raise Unsupported("the result is not a list of containers the contract can flatten")
+        s, t = a["self"], a["tree"]
+        sym = s.fields["symbol"]
+        unbound = type(self).trees_fn(t.ident, sym.ident)
+        sc = cx.ghost["scope0"]
+        if sc is None:
+            return [("without_a_scope_every_match_in_the_tree", flat == unbound)]
+        bound = z3.Select(cx.ghost["keys0"], sym.ident)
+        val = ScopeVal(cx.ghost["scope_id"], sym.ident)
+        return [("a_symbol_bound_in_the_scope_is_that_one_tree", Implies(bound, flat == z3.Unit(val))),
+                ("an_unbound_symbol_is_every_match_in_the_tree", Implies(Not(bound), flat == unbound))]
+
+
+@register
+class RuleSearch_find(_Rule):
+    target = f"{SEARCH}:RuleSearch.find"
+    trees_fn = AllTrees
+
+
+@register
+class RuleSearch_find_direct(_Rule):
+    target = f"{SEARCH}:RuleSearch.find_direct"
+    trees_fn = DirectTrees
+
+
+# ------------------------------------------------------------------------------------------------ *sel and |sel|
+
+class _Wrap(Contract):
+    """*base / |base|: ONE container holding all trees matched by the base, in order (the Length container evaluates to their number)"""
+    properties = ("C07",)
+    float_mode = "real"
+    cases = ("no_scope", "scope")
+    cls, field, container, base_fn = "", "base", "", None
+
+    def inputs(self, cx, case):
+        s = search_obj(cx, self.cls, "self")
+        s.fields[self.field] = search_obj(cx, "NonTerminalSearch", "self." + self.field)
+        a = {"self": s, "tree": some_tree(cx), "scope": scope_input(cx, case), "population": None}
+        cx.ghost["scope_id"] = scope_id(a)
+        cx.ghost["inline_ok"] = {f"{SEARCH}:StarSearch._find"}
+        return a
+
+    def ensures(self, cx, a, r):
+        s = a["self"]
+        want = type(self).base_fn(s.fields[self.field].ident, a["tree"].ident, cx.ghost["scope_id"])
+        if not (isinstance(r, SList) and r.concrete):
+            raise Unsupported("the result is not a list display the contract can read")
+        one = len(r.items) == 1 and isinstance(r.items[0], SObj) and r.items[0].cls == self.container
+        out = [("exactly_one_container_of_the_documented_kind", z3.BoolVal(one))]
+        if one:
+            flat = flat_of(r)
+            if flat is None:
+                raise Unsupported("the container's trees are not a sequence the contract can read")
+            out.append(("it_holds_every_tree_matched_by_the_base_in_order", flat == want))
+        return out
+
+
+@register
+class StarSearch_find(_Wrap):
+    target = f"{SEARCH}:StarSearch.find"
+    cls, field, container, base_fn = "StarSearch", "base", "TreeList", FindS
+
+
+@register
+class StarSearch_find_direct(_Wrap):
+    target = f"{SEARCH}:StarSearch.find_direct"
+    cls, field, container, base_fn = "StarSearch", "base", "TreeList", FindDirectS
+
+
+@register
+class LengthSearch_find(_Wrap):
+    target = f"{SEARCH}:LengthSearch.find"
+    cls, field, container, base_fn = "LengthSearch", "value", "Length", FindS
+
+
+@register
+class LengthSearch_find_direct(_Wrap):
+    target = f"{SEARCH}:LengthSearch.find_direct"
+    cls, field, container, base_fn = "LengthSearch", "value", "Length", FindDirectS
+
+
+@register
+class StarSearch_quantify(_Wrap):
+    """quantifying over *base binds one match at a time: one Tree container per tree matched by the base, in order"""
+    target = f"{SEARCH}:StarSearch.quantify"
+    cls, field, container, base_fn = "StarSearch", "base", "Tree", FindS
+
+    def ensures(self, cx, a, r):
+        s = a["self"]
+        want = FindS(s.fields["base"].ident, a["tree"].ident, cx.ghost["scope_id"])
+        flat = flat_of(r)
+        if flat is None:
+            raise Unsupported("the result is not a list of containers the contract can flatten")
+        return [("one_container_per_tree_matched_by_the_base_in_order", And(flat == want, to_term_int(r.length if not r.concrete else len(r.items)) == z3.Length(want)))]
+
+
+@register
+class Search_quantify_default(Contract):
+    """the default quantify() is find(): same containers"""
+    target = f"{SEARCH}:NonTerminalSearch.quantify"
+    key = f"{SEARCH}:NonTerminalSearch.quantify@verified"
+    properties = ("C07",)
+    float_mode = "real"
+    cases = ("no_scope", "scope")
+
+    def inputs(self, cx, case):
+        s = search_obj(cx, "NonTerminalSearch", "self")
+        a = {"self": s, "tree": some_tree(cx), "scope": scope_input(cx, case), "population": None}
+        cx.ghost["scope_id"] = scope_id(a)
+        return a
+
+    def ensures(self, cx, a, r):
+        flat = flat_of(r)
+        if flat is None:
+            raise Unsupported("the result is not a list of containers the contract can flatten")
+        return [("quantify_is_find", flat == FindS(a["self"].ident, a["tree"].ident, cx.ghost["scope_id"]))]
+
+
+# ------------------------------------------------------------------------------------------------ DerivationTree.find_direct_trees
+
+SymOf = z3.Function("SymbolOf", I, I)
+
+
+def sym_tree_list(cx, seq, label) -> SList:
+    """trees by identity whose symbol is the NonTerminal named SymbolOf(identity)"""
+    l = tree_list(cx, seq, label)
+    base_elem = l.elem
+
+    def elem(j):
+        o = base_elem(j)
+        sy = SObj("NonTerminal", {}, fresh=False, label=f"{label}[{idx_term(j)}].symbol")
+        sy.ident = SymOf(o.ident)
+        sy.fields["@hash"] = SInt(sy.ident)
+        o.fields["_symbol"] = sy
+        return o
+
+    l.elem = elem
+    l.ghost["seq_make"] = lambda sq: sym_tree_list(cx, sq, label + "'")
+    return l
+
+
+@register
+class Tree_find_direct_trees_verified(Contract):
+    """DirectTrees(t, sym): the sub-sequence of children ++ sources (in that order) whose symbol equals sym"""
+    target = "language/tree.py:DerivationTree.find_direct_trees"
+    key = "language/tree.py:DerivationTree.find_direct_trees@verified"
+    properties = ("C07",)
+    float_mode = "real"
+
+    def inputs(self, cx):
+        import contracts.parser_state  # noqa: F401  (Symbol.__eq__: equality of names)
+        t = some_tree(cx, "self")
+        kids, srcs = z3.Const("children_seq", IS), z3.Const("sources_seq", IS)
+        t.fields["_children"] = sym_tree_list(cx, kids, "children")
+        t.fields["_sources"] = sym_tree_list(cx, srcs, "sources")
+        cx.ghost["both"] = z3.Concat(kids, srcs)
+        cx.ghost["inline_ok"] = {"language/tree.py:DerivationTree.symbol"}
+        return {"self": t, "symbol": nonterminal(cx, "symbol")}
+
+    def ensures(self, cx, a, r):
+        if not (isinstance(r, SList) and "filter_of" in r.ghost):
+            raise Unsupported("the result is not a filtering comprehension the contract can read")
+        f = r.ghost["filter_of"]
+        j = f["index"]
+        from pyvc.ops import as_seq
+        src = f["src"]
+        sq = src.ghost.get("seq") if isinstance(src, SList) else None
+        if sq is None:
+            raise Unsupported("the filtered list is not a sequence of identities")
+        both = cx.ghost["both"]
+        n = z3.Length(both)
+        elt, at = f["elt"], f["elem_at_index"]
+        return [("filters_children_followed_by_sources", sq == both),
+                ("keeps_exactly_the_trees_with_that_symbol", ForAll([j], Implies(And(j >= 0, j < n), f["keep"] == (SymOf(both[j]) == a["symbol"].ident)))),
+                ("kept_elements_are_the_trees_themselves", z3.BoolVal(elt is at))]
+
+
+# ------------------------------------------------------------------------------------------------ NonTerminalSearch.find_all
+
+def _fa_havoc(cx, env, k):
+    flat = z3.Const(cx._name("targets_flat"), IS)
+    env["targets"] = container_list(cx, flat, "targets")
+    trees = env["trees"].ghost["seq"]
+    kt = idx_term(k)
+    s, sc = env["self"], cx.ghost["scope_id"]
+    cx.assume(Upto(trees, kt + 1) == z3.Concat(Upto(trees, kt), z3.Unit(trees[kt])))
+    cx.assume(FMf(s.ident, z3.Concat(Upto(trees, kt), z3.Unit(trees[kt])), sc) == z3.Concat(FMf(s.ident, Upto(trees, kt), sc), FindS(s.ident, trees[kt], sc)))
+
+
+def _fa_inv(cx, env, k):
+    flat = flat_of(env["targets"])
+    if flat is None:
+        raise Unsupported("`targets` is not a list of containers the contract can flatten")
+    trees = env["trees"].ghost["seq"]
+    kt = idx_term(k) if not isinstance(k, int) else z3.IntVal(k)
+    cx.assume(Upto(trees, 0) == EMPTY)
+    cx.assume(Upto(trees, z3.Length(trees)) == trees)
+    return [("targets_are_the_matches_of_the_first_k_trees", flat == FMf(env["self"].ident, Upto(trees, kt), cx.ghost["scope_id"]))]
+
+
+@register
+class Search_find_all(Contract):
+    """find_all(trees) = the matches of find() in each tree, concatenated in the order of the trees"""
+    target = f"{SEARCH}:NonTerminalSearch.find_all"
+    properties = ("C07",)
+    float_mode = "real"
+    cases = ("no_scope", "scope")
+    loops = {0: Loop(0, iter_text="trees", inv=_fa_inv, havoc=_fa_havoc, modifies=("targets", "tree"))}
+
+    def inputs(self, cx, case):
+        s = search_obj(cx, "NonTerminalSearch", "self")
+        a = {"self": s, "trees": tree_list(cx, z3.Const("trees_seq", IS), "trees"), "scope": scope_input(cx, case), "population": None}
+        cx.ghost["scope_id"] = scope_id(a)
+        cx.assume(FMf(s.ident, EMPTY, cx.ghost["scope_id"]) == EMPTY)
+        return a
+
+    def ensures(self, cx, a, r):
+        flat = flat_of(r)
+        if flat is None:
+            raise Unsupported("the result is not a list of containers the contract can flatten")
+        return [("result_is_the_flat_map_of_find_over_the_trees", flat == FMf(a["self"].ident, a["trees"].ghost["seq"], cx.ghost["scope_id"]))]
